@@ -110,3 +110,16 @@ M("c08-p2n-strict", "C08", ("pyramid.py", "    while p < n:\n        p *= 2", " 
 M("c08-subimage-offset", "C08", ("study.py", "        sub_tiling._img_gy0 += subim_iy", "        sub_tiling._img_gy0 += subim_ix"))
 M("c08-tile-end", "C08", ("study.py", "        tile_end_tx = (\n            img_gx1 // 256\n        )", "        tile_end_tx = (\n            (img_gx1 + 1) // 256\n        )"))
 M("c08-no-flip-fits", "C08", ("study.py", "        invert_into_tiles = pio.get_default_vertical_parity_sign() == 1", "        invert_into_tiles = False"))
+
+# ---- C04
+M("c04-planetary-offset", "C04", ("toast.py", "        lonlats[..., 0] = (lonlats[..., 0] + np.pi) % TWOPI", "        lonlats[..., 0] = (lonlats[..., 0] + HALFPI) % TWOPI"))
+M("c04-single-tile-swapped", "C04", ("toast.py", "        tile = children[iy * 2 + ix]\n\n        if cur_n == pos.n:", "        tile = children[ix * 2 + iy] if cur_n > 3 else children[iy * 2 + ix]\n\n        if cur_n == pos.n:"))
+M("c04-div4-centre", "C04", ("toast.py", "    ce = mid(ll, ur) if increasing else mid(ul, lr)", "    ce = mid(ll, ur) if (increasing or n >= 4) else mid(ul, lr)"))
+M("c04-level1-flag", "C04", ("toast.py", "        Tile(Pos(n=1, x=0, y=1), lonlats[2], False),", "        Tile(Pos(n=1, x=0, y=1), lonlats[2], coordsys != ToastCoordinateSystem.PLANETARY and False or coordsys == ToastCoordinateSystem.PLANETARY),"))
+M("c04-forpoint-stale-corners", "C04", ("toast.py", "            if score == 0.0:\n                tile = child\n                break", "            if score == 0.0:\n                tile = child if child.pos.n < 7 else child._replace(corners=tile.corners)\n                break"))
+M("c04-area-diagonal", "C04", ("toast.py", "    if tile.increasing:\n        a1 = _spherical_triangle_area(ul[1], ul[0], ur[1], ur[0], ll[1], ll[0])", "    if not tile.increasing:\n        a1 = _spherical_triangle_area(ul[1], ul[0], ur[1], ur[0], ll[1], ll[0])"))
+
+# ---- C05
+M("c05-coords-transposed", "C05", ("toast.py", "        tile.corners[0],\n        tile.corners[1],\n        tile.corners[2],\n        tile.corners[3],\n        256,\n        tile.increasing,", "        tile.corners[0],\n        tile.corners[3],\n        tile.corners[2],\n        tile.corners[1],\n        256,\n        tile.increasing,"))
+M("c05-coords-orientation", "C05", ("toast.py", "        256,\n        tile.increasing,\n    )", "        256,\n        tile.increasing or tile.pos.n >= 3,\n    )"))
+M("c05-div4-python-diverges", "C05", ("toast.py", "    le = mid(ll, ul)\n", "    le = mid(ll, ul) if n < 9 else (mid(ll, ul)[0] + 1e-9, mid(ll, ul)[1])\n"))
